@@ -45,6 +45,10 @@ def main():
     sh("cp -n /repo/rust/Cargo.lock %s/rust/Cargo.lock" % repo_wt)
     res["repo_head"] = sh("git rev-parse --short HEAD", cwd=repo_wt)[1].strip()
     rc, out = sh("git apply --whitespace=nowarn %s/patch.diff" % d, cwd=repo_wt)
+    if rc != 0:
+        # the library moved on since the change was written (fix: commits landed meanwhile): retry as a 3-way merge
+        rc, out = sh("git apply --3way --whitespace=nowarn %s/patch.diff && git reset -q" % d, cwd=repo_wt)
+        res["applied_3way"] = rc == 0
     res["applies"] = rc == 0
     if rc != 0:
         res["apply_output"] = out[-800:]
@@ -60,10 +64,10 @@ def main():
         sh("mkdir -p %s/rust/tests && cp %s %s/rust/tests/%s.rs" % (repo_wt, demo, repo_wt, name))
         rc1, out1 = sh("cargo test --offline --test %s 2>&1 | tail -15" % name, cwd=repo_wt + "/rust")
         bad = "test result: FAILED" in out1 or "panicked" in out1
-        sh("git apply -R --whitespace=nowarn %s/patch.diff" % d, cwd=repo_wt)
+        sh("git stash -q", cwd=repo_wt)
         rc2, out2 = sh("cargo test --offline --test %s 2>&1 | tail -15" % name, cwd=repo_wt + "/rust")
         good = "test result: ok" in out2
-        sh("git apply --whitespace=nowarn %s/patch.diff" % d, cwd=repo_wt)
+        sh("git stash pop -q", cwd=repo_wt)
         sh("rm -f %s/rust/tests/%s.rs" % (repo_wt, name))
         res["demo"] = {"fails_with_patch": bad, "passes_without": good,
                        "with_tail": out1[-400:] if not bad else "", "without_tail": out2[-400:] if not good else ""}
